@@ -10,7 +10,7 @@ try:
     commits = subprocess.check_output(["git", "-C", "/repo", "log", "--format=%H %s", "711f762..HEAD"]).decode().splitlines()
 except Exception:
     commits = []
-hook_commits = [c.split()[0] for c in commits if "verif hook" in c]
+hook_commits = [c.split()[0] for c in commits if not c.split(" ", 1)[1].startswith("fix:")]  # every commit that is not a repair is a guarded hook commit
 checks, na = [], []
 for i in ids:
     m = metas.get(i)
